@@ -122,7 +122,16 @@ def r09_1_2(run):
     run.floor('R09.2', '_maybe_attach call sites', len(calls), 1)
     for c in calls:
         for n in gs.nodes_containing(c):
-            flagnames = names_defined_by(su, lambda v: const(v) is True or (isinstance(v, ast.Compare) and is_none(v.comparators[0])))
+            flagnames = names_defined_by(su, lambda v: const(v) is True or (isinstance(v, ast.Compare) and is_none(v.comparators[0])) or
+                                         (isinstance(v, ast.Compare) and len(v.ops) == 1 and isinstance(v.ops[0], ast.NotIn) and dotted(v.comparators[0]) == 'self.streams'))
+            # a flag computed as "not yet in self.streams" means "new" only if it is computed before the stream is entered
+            ins = gs.nodes_where(lambda x: x.kind == 'stmt' and isinstance(x.ast, ast.Assign) and any(isinstance(t_, ast.Subscript) and dotted(t_.value) == 'self.streams' for t_ in x.ast.targets))
+            for fn_ in list(flagnames):
+                dn = gs.nodes_where(lambda x: x.kind == 'stmt' and isinstance(x.ast, ast.Assign) and fn_ in assigned_targets(x.ast) and isinstance(x.ast.value, ast.Compare)
+                                    and isinstance(x.ast.value.ops[0], ast.NotIn))
+                late = [d_ for d_ in dn if any(d_ in gs.reachable([s_ for _, s_ in i_.succ], follow_exc=False) for i_ in ins)]
+                if late:
+                    flagnames = [x for x in flagnames if x != fn_]
             gd = gs.guarded_by(n, lambda t: dotted(t) in flagnames)
             run.ob('R09.2', su, c, 'attachment decided only when the stream is first seen', any(lab == 'T' for _, lab in gd), slot='wasnew',
                    message='_maybe_attach reachable for streams that are not new (a second decision per stream)')
@@ -289,6 +298,17 @@ def r09_6(run):
         first = [s for _, s in h.succ]
         ok = ok or (bool(first) and first[0].kind == 'stmt' and isinstance(first[0].ast, ast.Return) and
                     (first[0].ast.value is None or is_none(first[0].ast.value)))
+    # ... or the same with a default: entry = targets.pop(k, None); if entry is None: return None
+    defs_a = local_defs(att)
+    ent = names_defined_by(att, lambda v: isinstance(v, ast.Call) and dotted(v.func) in ('self._circuit_targets.pop', 'self._circuit_targets.get') and len(v.args) == 2 and is_none(v.args[1]))
+    for t in g.live:
+        if t.kind == 'test' and isinstance(t.ast, ast.Compare) and dotted(t.ast.left) in ent and is_none(t.ast.comparators[0]) and isinstance(t.ast.ops[0], (ast.Is, ast.IsNot, ast.Eq, ast.NotEq)):
+            miss = 'T' if isinstance(t.ast.ops[0], (ast.Is, ast.Eq)) else 'F'
+            nxt = [s_ for lab, s_ in t.succ if lab == miss]
+            while nxt and nxt[0].kind == 'join':
+                nxt = [s_ for _, s_ in nxt[0].succ]
+            if nxt and nxt[0].kind == 'stmt' and isinstance(nxt[0].ast, ast.Return) and (nxt[0].ast.value is None or is_none(nxt[0].ast.value)):
+                ok = True
     run.ob('R09.6', att, att.node, 'a stream that matches no pending connection gets no preference (None)', ok, slot='miss-none',
            message='_CircuitAttacher.attach_stream does not return None for unrelated streams')
     # source_addr of a stream is normalised the same way (maybe_ip_addr)
@@ -300,8 +320,14 @@ def r09_6(run):
     # the circuit returned is the one registered
     rets = [n for n in walk_unit(att) if isinstance(n, ast.Return) and n.value is not None and not is_none(n.value)]
     defs = local_defs(att)
-    ok = bool(rets) and all(isinstance(r.value, ast.Name) and any(d[0] == 'elem' and d[2] == 0 and 'self._circuit_targets.pop' in src(d[1]) for d in defs.get(r.value.id, []))
-                            for r in rets)
+    def from_table(d):
+        if d[0] != 'elem' or d[2] != 0:
+            return False
+        v = d[1]
+        if isinstance(v, ast.Name) and single_def(defs, v.id) and single_def(defs, v.id)[0] == 'expr':
+            v = single_def(defs, v.id)[1]
+        return 'self._circuit_targets.pop' in src(v)
+    ok = bool(rets) and all(isinstance(r.value, ast.Name) and any(from_table(d) for d in defs.get(r.value.id, [])) for r in rets)
     run.ob('R09.6', att, att.node, 'the circuit returned is the one registered for that source address', ok, slot='return-registered', message='attach_stream returns %s' % [src(r.value) for r in rets])
     ep = run.idx.find_method(run.idx.cls('TorCircuitEndpoint', 'circuit'), 'connect')
     ok = any(is_method_call(c, 'add_endpoint') and len(c.args) == 2 and dotted(c.args[0]) == 'self._target_endpoint' and dotted(c.args[1]) == 'self._circuit' for c in calls_in(ep))
@@ -395,6 +421,7 @@ RULES = [
 from ..selftest import M  # noqa: E402
 FT, FC = 'txtorcon/torstate.py', 'txtorcon/circuit.py'
 MUTANTS = [
+    M('was-new-computed-late', 'txtorcon/torstate.py', ["        wasnew = False\n", "                stream.listen(x)\n            wasnew = True\n"], ["", "                stream.listen(x)\n        wasnew = stream_id not in self.streams\n"], ['R09.2']),
     M('first-registration-wins', 'txtorcon/circuit.py', "        self._circuit_targets[(real_host, real_port)] = (circuit, d)", "        self._circuit_targets.setdefault((real_host, real_port), (circuit, d))", ['R09.6']),
     M('register-unless-present', 'txtorcon/circuit.py', "        self._circuit_targets[(real_host, real_port)] = (circuit, d)", "        if (real_host, real_port) not in self._circuit_targets:\n            self._circuit_targets[(real_host, real_port)] = (circuit, d)", ['R09.6']),
     M('answer-coroutine-not-awaited', FT, "        circ_d.addCallback(maybe_coroutine)\n", "", ['R09.2']),
@@ -416,6 +443,8 @@ MUTANTS = [
     M('match-by-host-only', FC, "        k = (stream.source_addr, stream.source_port)\n        try:\n            circuit, d = self._circuit_targets.pop(k)", "        k = (stream.source_addr, 0)\n        try:\n            circuit, d = self._circuit_targets.pop(k)", ['R09.6']),
 ]
 TWINS = [
+    M('targets-pop-with-default', 'txtorcon/circuit.py', "        try:\n            circuit, d = self._circuit_targets.pop(k)\n        except KeyError:\n            return\n", "        entry = self._circuit_targets.pop(k, None)\n        if entry is None:\n            return\n        circuit, d = entry\n"),
+    M('was-new-computed-first', 'txtorcon/torstate.py', ["        wasnew = False\n", "                stream.listen(x)\n            wasnew = True\n"], ["        wasnew = stream_id not in self.streams\n", "                stream.listen(x)\n"]),
     M('reorder-validity-checks', FT, "                if circ.id not in self.circuits:\n                    raise RuntimeError(\n                        \"Attacher returned a circuit unknown to me.\"\n                    )\n                if circ.state != 'BUILT':\n                    raise RuntimeError(\n                        \"Can only attach to BUILT circuits; %d is in %s.\" %\n                        (circ.id, circ.state)\n                    )\n",
       "                if circ.state != 'BUILT':\n                    raise RuntimeError(\n                        \"Can only attach to BUILT circuits; %d is in %s.\" %\n                        (circ.id, circ.state)\n                    )\n                if circ.id not in self.circuits:\n                    raise RuntimeError(\n                        \"Attacher returned a circuit unknown to me.\"\n                    )\n"),
     M('marker-elif', FT, "                return None\n\n            if circ is None:\n                # tell Tor to do what it likes", "                return None\n\n            elif circ is None:\n                # tell Tor to do what it likes"),
